@@ -105,6 +105,8 @@ def main(chk):
     for a, r in zip(args, res):
         chk.add('evaluations', r['schedules'] * len(a['names']))
         distinct += r['schedules']
+        if len(chk.cov['samples']) < 5 and r['execs']:
+            chk.sample({'calls': a['names'], 'schedules_executed': r['schedules'], 'one_schedule': ''.join(e['t'][1:] for e in r['execs'][-1]['events'])})
         for b in r['bad']:
             chk.violation('outcome differs | %s | next to %s' % (b['call'], '+'.join(b['others'])),
                           'call %s returned %s under schedule %s; alone it returns %s' % (b['call'], b['got'], b['sched'], b['alone']), b)
